@@ -28,6 +28,11 @@ type C03Plan struct {
 	Text     string         `json:"text,omitempty"` // the input again, readable (informational)
 	Expect   string         `json:"expect,omitempty"`
 	Delivery simio.Delivery `json:"delivery"`
+	// Expect == "fastq-records": Input is a sequence of well separated
+	// four-line FASTQ records, some structurally invalid by construction;
+	// Valid lists the valid ones. A successful Read must return one of them.
+	Valid   []SeqRec `json:"valid,omitempty"`
+	Invalid int      `json:"invalid,omitempty"` // number of invalid records in a "fastq-records" input
 }
 
 var c03Readers = []string{"fasta", "fastq", "bed3", "bed4", "bed5", "bed6", "bed12", "gff"}
@@ -87,6 +92,7 @@ func runC03(t *testing.T, c *Case, o RunOpts) *Result {
 	lines := countLines(delivered)
 	site := "c03-" + pl.Reader
 	firstErr := -1
+	okRecs, errCalls := 0, 0
 	for call := 0; call < lines+4; call++ {
 		src.ResetPolls()
 		var rec interface{}
@@ -104,6 +110,16 @@ func runC03(t *testing.T, c *Case, o RunOpts) *Result {
 			res.Viol = viol(site+"-nil-nil", "call %d returned neither a record nor an error", call)
 			break
 		}
+		if pl.Expect == "fastq-records" && rerr == nil {
+			if v := matchValid(rec, pl.Valid); v != nil {
+				res.Viol = v
+				break
+			}
+			okRecs++
+		}
+		if pl.Expect == "fastq-records" && rerr != nil && rerr != io.EOF {
+			errCalls++
+		}
 		if call == 0 && pl.Expect == "error-first" && (rerr == nil || rerr == io.EOF) {
 			res.Viol = viol(site+"-invalid-accepted", "structurally invalid input %q: first Read returned (%v, %v), want a non-EOF error", pl.Input, rec, rerr)
 			break
@@ -116,10 +132,97 @@ func runC03(t *testing.T, c *Case, o RunOpts) *Result {
 		}
 	}
 	res.Steps = src.Reads
+	if res.Viol == nil && pl.Expect == "fastq-records" && pl.Delivery.TruncateAt < 0 && pl.Delivery.ErrorAt < 0 {
+		if okRecs > len(pl.Valid) {
+			res.Viol = viol(site+"-invalid-accepted", "%d records returned without error but only %d of the records in the input are valid", okRecs, len(pl.Valid))
+		} else if errCalls == 0 && pl.Invalid > 0 {
+			res.Viol = viol(site+"-invalid-accepted", "the input contains structurally invalid records but no Read reported an error")
+		}
+	}
 	if res.Viol == nil && (firstErr < 0 || firstErr > lines) {
 		res.Viol = viol(site+"-no-end", "input of %d lines: no error or io.EOF within %d calls (first error at call %d)", lines, lines+1, firstErr)
 	}
 	return res
+}
+
+// matchValid checks that a record returned without error is one of the valid
+// records of a "fastq-records" input.
+func matchValid(rec interface{}, valid []SeqRec) *simrt.Violation {
+	q, ok := rec.(*linear.QSeq)
+	if !ok {
+		return viol("c03-fastq-type", "unexpected record type %T", rec)
+	}
+	letters := make([]byte, len(q.Seq))
+	for i, ql := range q.Seq {
+		letters[i] = byte(ql.L)
+	}
+	for _, v := range valid {
+		if v.Name != q.ID || v.Desc != q.Desc || v.Letters != string(letters) || len(v.Quals) != len(q.Seq) {
+			continue
+		}
+		same := true
+		for i, ql := range q.Seq {
+			if int(ql.Q) != v.Quals[i] {
+				same = false
+			}
+		}
+		if same {
+			return nil
+		}
+	}
+	return viol("c03-fastq-invalid-accepted", "Read returned the record (%q, %q, %d letters %s) without error, but no valid record of the input has that content (a structurally invalid record was accepted, or state leaked between records)", q.ID, q.Desc, len(letters), clip(string(letters)))
+}
+
+// fastqRecords builds a file of well separated four-line records, each valid
+// or invalid in one of two ways after which a reader is still at a record
+// boundary: sequence/quality length mismatch, or a missing sequence line.
+// Quality strings never begin with '@', so no line but a header can start a
+// record and a reader cannot legitimately assemble a record across records.
+func fastqRecords(r *simrt.RNG) ([]byte, []SeqRec, int) {
+	var buf bytes.Buffer
+	var valid []SeqRec
+	invalid := 0
+	n := r.Range(2, 5)
+	lens := []int{r.Range(1, 9), r.Range(1, 9), r.Range(1, 9)}
+	for i := 0; i < n; i++ {
+		name := fmt.Sprintf("r%d", i)
+		k := lens[r.Intn(len(lens))]
+		letters := genLetters(r, "dna", k)
+		qual := func(m int) ([]byte, []int) {
+			b := make([]byte, m)
+			qs := make([]int, m)
+			for j := range b {
+				qs[j] = r.Range(1, 40)
+				if j > 0 && r.Intn(6) == 0 {
+					qs[j] = '@' - 33
+				}
+				if j == 0 && qs[j] == '@'-33 {
+					qs[j]++ // a quality line must not look like a header
+				}
+				b[j] = byte(33 + qs[j])
+			}
+			return b, qs
+		}
+		switch r.Intn(4) {
+		case 0: // length mismatch
+			m := lens[r.Intn(len(lens))]
+			if m == k {
+				m = k + 1
+			}
+			qb, _ := qual(m)
+			fmt.Fprintf(&buf, "@%s\n%s\n+\n%s\n", name, letters, qb)
+			invalid++
+		case 1: // sequence line missing
+			qb, _ := qual(lens[r.Intn(len(lens))])
+			fmt.Fprintf(&buf, "@%s\n+\n%s\n", name, qb)
+			invalid++
+		default:
+			qb, qs := qual(k)
+			fmt.Fprintf(&buf, "@%s\n%s\n+\n%s\n", name, letters, qb)
+			valid = append(valid, SeqRec{Name: name, Letters: letters, Quals: qs})
+		}
+	}
+	return buf.Bytes(), valid, invalid
 }
 
 // --- input generation ------------------------------------------------------
@@ -352,8 +455,16 @@ func targeted(r *simrt.RNG, reader string) []byte {
 	return []byte(strings.Join(cols, "\t") + "\n")
 }
 
-func genC03Input(r *simrt.RNG) (reader string, input []byte, expect string) {
+func genC03Input(r *simrt.RNG) (reader string, input []byte, expect string, valid []SeqRec, invalid int) {
 	reader = c03Readers[r.Intn(len(c03Readers))]
+	if reader == "fastq" && r.Intn(4) == 0 {
+		input, valid, invalid = fastqRecords(r)
+		return reader, input, "fastq-records", valid, invalid
+	}
+	if r.Intn(12) == 0 {
+		input = boundaryLines(r, reader)
+		return
+	}
 	switch k := r.Intn(10); {
 	case k < 2:
 		input = randomBytes(r, reader)
@@ -373,8 +484,51 @@ func genC03Input(r *simrt.RNG) (reader string, input []byte, expect string) {
 	return
 }
 
+// boundaryLines builds inputs whose lines end exactly at, just before or just
+// after multiples of bufio's 4096-byte buffer, with or without a header and
+// with or without a final terminator: where ReadLine hands out fragments.
+func boundaryLines(r *simrt.RNG, reader string) []byte {
+	var buf bytes.Buffer
+	f := fmtOf(reader)
+	if r.Bool() {
+		switch f {
+		case "fasta":
+			buf.WriteString(">h d\n")
+		case "fastq":
+			buf.WriteString("@h d\n")
+		case "gff":
+			buf.WriteString("##DNA s\n##")
+		}
+	} else if r.Intn(3) == 0 {
+		buf.WriteString("junk\n\n")
+	}
+	for k := r.Range(1, 2); k > 0; k-- {
+		n := 4096*r.Range(1, 2) + r.Pick(-2, -1, 0, 0, 0, 1)
+		fill := byte("ACGTacgtN#@+>\tI"[r.Intn(15)])
+		buf.Write(bytes.Repeat([]byte{fill}, n))
+		if k > 1 || r.Bool() {
+			buf.WriteString([]string{"\n", "\r\n", " \n"}[r.Intn(3)])
+		}
+	}
+	if f == "fastq" && r.Bool() {
+		buf.WriteString("+\n")
+		buf.Write(bytes.Repeat([]byte{'I'}, 4096*r.Range(1, 2)+r.Pick(-1, 0, 0, 1)))
+		if r.Bool() {
+			buf.WriteString("\n")
+		}
+	}
+	return buf.Bytes()
+}
+
 func c03Case(reader string, input []byte, expect string, d simio.Delivery) *Case {
-	pl := C03Plan{Reader: reader, Input: input, Expect: expect, Delivery: d}
+	return c03CaseV(reader, input, expect, d, nil)
+}
+
+func c03CaseV(reader string, input []byte, expect string, d simio.Delivery, valid []SeqRec, invalid ...int) *Case {
+	pl := C03Plan{Reader: reader, Input: input, Expect: expect, Delivery: d, Valid: valid}
+	if len(invalid) > 0 {
+		pl.Invalid = invalid[0]
+	}
 	if len(input) <= 400 {
 		pl.Text = string(input)
 	}
@@ -382,11 +536,11 @@ func c03Case(reader string, input []byte, expect string, d simio.Delivery) *Case
 }
 
 func exploreC03(t *testing.T, w *Worker, r *simrt.RNG) {
-	reader, input, expect := genC03Input(r)
+	reader, input, expect, valid, invalid := genC03Input(r)
 	d := simio.PickDelivery(r)
-	c := c03Case(reader, input, expect, d)
+	c := c03CaseV(reader, input, expect, d, valid, invalid)
 	w.Report(c, runC03(t, c, RunOpts{}))
-	if expect != "" || len(input) == 0 {
+	if expect == "error-first" || len(input) == 0 {
 		return
 	}
 	// faults: the producer dies (clean EOF) or the stream fails, at byte offsets
@@ -408,6 +562,8 @@ func exploreC03(t *testing.T, w *Worker, r *simrt.RNG) {
 		} else {
 			d2.TruncateAt = off
 		}
+		// a truncated invalid record may well be a valid one: under stream
+		// faults only the generic totality oracle applies
 		c2 := c03Case(reader, input, "", d2)
 		res := runC03(t, c2, RunOpts{})
 		if d2.ErrorAt >= 0 {
@@ -424,12 +580,12 @@ func shrinkC03(c *Case) []*Case {
 	json.Unmarshal(c.Plan, &pl)
 	var out []*Case
 	add := func(in []byte, d simio.Delivery) {
-		out = append(out, c03Case(pl.Reader, in, pl.Expect, d))
+		out = append(out, c03CaseV(pl.Reader, in, pl.Expect, d, pl.Valid, pl.Invalid))
 	}
 	in := pl.Input
 	d := pl.Delivery
 	// make faults part of the input: a truncated input is a shorter input
-	if d.TruncateAt >= 0 && d.TruncateAt < len(in) {
+	if pl.Expect == "" && d.TruncateAt >= 0 && d.TruncateAt < len(in) {
 		d2 := d
 		d2.TruncateAt = -1
 		add(in[:d.TruncateAt], d2)
